@@ -394,7 +394,7 @@ def oracle_user_products(ctx):
     evaluations = nontrivial = 0
     failures, samples = [], []
     names = OUTS + ["UdU", "UdU", "UdU_plain", "UHU", "UHU_plain"]
-    for k in range(ctx.n(24, 200)):
+    for k in range(ctx.n(18, 200)):
         case = gen.random_case(rng, hermitian=True, fmt=rng.choice(["dense", "dense", "sympy"]), max_blocks=2, max_size=2,
                                max_params=2, N=2, allow_fully=False, allow_mask=False)
         nb = max(case["sub"]) + 1
